@@ -750,7 +750,7 @@ func vfH_C03_relock() {
 	b := env.newCmd(protocol.COMMAND_LOCK, key, vfLockId(1))
 	b.Count, b.Rcount = a.Count, vfU8("rcount2")
 	b.ExpriedFlag = 0x0200
-	kind := vfChoice("kind", 3)
+	kind := vfChoice("kind", 5)
 	switch kind {
 	case 0: // re-entrant re-lock
 		b.Expried = 3
@@ -758,12 +758,26 @@ func vfH_C03_relock() {
 		b.Flag, b.Expried = 0x02, 9
 	case 2: // update that leaves everything as it is (may be ignored)
 		b.Flag, b.Expried, b.Rcount = 0x02, 3, a.Rcount
+	case 3: // update that keeps the timing (unlimited flag + 0xffff) and changes Rcount
+		b.Flag, b.ExpriedFlag, b.Expried = 0x02, 0x0200|0x4000, 0xffff
+	case 4: // re-entrant re-lock that keeps the timing
+		b.ExpriedFlag, b.Expried = 0x0200|0x4000, 0xffff
 	}
 	n := len(env.replies)
 	env.lock(1, b)
 	vfAssert(len(env.replies) == n+1 && env.replies[n].proto == 1 && env.replies[n].reqId == b.RequestId, "C03: the re-lock/update was not answered exactly once on its own connection")
 	hs := vfHolders(env.manager(key))
 	vfAssert(len(hs) == 1, "C03: the hold vanished")
+	if (kind == 0 || kind == 4) && env.replies[n].result == protocol.RESULT_SUCCED {
+		vfReach("relocked")
+		vfAssert(hs[0].command.RequestId == b.RequestId, "C03: after a successful re-lock the hold's terms are not the re-lock's request")
+	}
+	// whichever of the two command objects the server handed back to a pool, the hold must not reference it
+	for _, p := range env.protos {
+		for i := 0; i < p.freeCommandIndex; i++ {
+			vfAssert(p.freeCommands[i] != hs[0].command, "C03: a live hold references a command object the server has freed")
+		}
+	}
 	if hs[0].command.RequestId == b.RequestId {
 		vfReach("terms-replaced")
 		owner, ownerReq = 1, b.RequestId
